@@ -12,18 +12,29 @@
 EXTENDS HttpWriter
 
 CONSTANTS MaxLen,        \* longest class string
-          MutA           \* "" | "lf-only" (seeded: _safe_header forgets CR)
+          MutA           \* "" | "lf-only" (seeded: _safe_header forgets CR) | "dollar-anchor"
 
 (* ------------------------------------------------------------------------ *)
-VARIABLES pos, str
-varsA == <<pos, str>>
+VARIABLES pos, place, str
+varsA == <<pos, place, str>>
+
+\* where the supplied string sits inside its token: between harmless characters of the same
+\* token ("mid"), first ("start"), last ("end"), or the token is the string ("whole")
+Places == {"mid", "start", "end", "whole"}
 
 A(x) == <<x>>
 Asc(t) == t                     \* byte strings are written as tuples below
 
-Refused(p, cls) ==
+RefusedPlain(p, cls) ==
     \E k \in 1..Len(cls) :
         cls[k] \in (IF MutA = "lf-only" /\ TodayEnc(p) = "raw" THEN TodayRefuses(p) \ {"CR"} ELSE TodayRefuses(p))
+\* seeded "dollar-anchor": names are validated with a regex anchored by `$`, which also matches
+\* before one final line feed - visible only when the string ends the token
+Refused(p, cls) ==
+    IF MutA = "dollar-anchor" /\ p \in {"name", "part-name"} /\ place \in {"end", "whole"}
+       /\ cls # <<>> /\ cls[Len(cls)] = "LF"
+    THEN RefusedPlain(p, SubSeq(cls, 1, Len(cls) - 1))
+    ELSE RefusedPlain(p, cls)
 
 \* today's encoders (only used to let the model produce what the code produces)
 IsAlnum(c) == (c >= 48 /\ c <= 57) \/ (c >= 65 /\ c <= 90) \/ (c >= 97 /\ c <= 122)
@@ -46,7 +57,7 @@ Encode(enc, sup) ==
       [] enc = "pct" -> PctEnc(U8EncSeq(sup), 1)
       [] enc = "cookie" -> IF \A k \in 1..Len(sup) : IsAlnum(sup[k]) THEN U8EncSeq(sup)
                            ELSE <<34>> \o CkEnc(sup, 1) \o <<34>>
-      [] enc = "qs" -> QsEnc(sup, 1)
+      [] enc = "qs" -> U8EncSeq(QsEnc(sup, 1))
 
 InStart(p) == p \in {"method", "target", "reason"}
 InName(p) == p \in {"name", "cookie-name", "part-name"}
@@ -54,14 +65,18 @@ InName(p) == p \in {"name", "cookie-name", "part-name"}
 \* one other header before and one after the tested one
 F1 == <<<<72, 111, 115, 116>>, <<104>>>>            \* Host: h
 F3 == <<<<65>>, <<98>>>>                            \* A: b
-PreOf(p) == IF InStart(p) THEN <<83, 32>>                          \* "S "
-            ELSE IF InName(p) THEN <<88, 45>>                      \* "X-"
-            ELSE IF p = "form-filename" \/ p = "form-name" THEN <<88, 58, 32, 110, 61, 34>>     \* X: n="
-            ELSE <<88, 58, 32, 118>>                               \* "X: v"
-PostOf(p) == IF InStart(p) THEN <<32, 69>>                         \* " E"
-             ELSE IF InName(p) THEN <<58, 32, 118>>                \* ": v"
-             ELSE IF p = "form-filename" \/ p = "form-name" THEN <<34>>
-             ELSE <<119>>                                          \* "w"
+TokA == IF place \in {"mid", "end"} THEN <<97>> ELSE <<>>        \* "a" before the string, same token
+TokB == IF place \in {"mid", "start"} THEN <<98>> ELSE <<>>      \* "b" after it
+SPre(p) == IF InStart(p) THEN <<83, 32>>                          \* "S "
+           ELSE IF InName(p) THEN <<>>                            \* a field name starts its line
+           ELSE IF p = "form-filename" \/ p = "form-name" THEN <<88, 58, 32, 110, 61, 34>>     \* X: n="
+           ELSE <<88, 58, 32>>                                    \* "X: "
+SPost(p) == IF InStart(p) THEN <<32, 69>>                         \* " E"
+            ELSE IF InName(p) THEN <<58, 32, 118>>                \* ": v"
+            ELSE IF p = "form-filename" \/ p = "form-name" THEN <<34>>
+            ELSE <<>>                                             \* a field value ends its line
+PreOf(p) == SPre(p) \o TokA
+PostOf(p) == TokB \o SPost(p)
 WireWith(p, mid) ==
     LET ln == PreOf(p) \o mid \o PostOf(p) IN
     IF InStart(p) THEN ln \o CRLF \o JoinFields(<<F1, F3>>, 1) \o CRLF
@@ -80,8 +95,9 @@ RawEmitEvent(p, cls) == Event(p, cls, "emitted", "raw", WireWith(p, U8EncSeq(Rep
 
 HasNL(cls) == \E k \in 1..Len(cls) : cls[k] \in {"CR", "LF"}
 
-InitA == pos \in Positions /\ str = <<>>
-Extend(c) == Len(str) < MaxLen /\ str' = Append(str, c) /\ UNCHANGED pos
+\* an encoded token is encoded as a whole: no raw neighbours inside the quotes
+InitA == pos \in Positions /\ place \in Places /\ (TodayEnc(pos) # "raw" => place = "whole") /\ str = <<>>
+Extend(c) == Len(str) < MaxLen /\ str' = Append(str, c) /\ UNCHANGED <<pos, place>>
 NextA == \E c \in Classes : Extend(c)
 SpecA == InitA /\ [][NextA]_varsA
 
